@@ -65,8 +65,11 @@ func init() {
 					} else {
 						cl[audClaim] = av
 					}
-					if vpS(tok, "exp") == "past" {
+					switch vpS(tok, "exp") {
+					case "past":
 						cl["exp"] = time.Now().Add(-time.Hour).Unix()
+					case "expiring":
+						cl["exp"] = time.Now().Add(3 * time.Second).Unix()
 					}
 					switch vpS(tok, "ev") {
 					case "false":
@@ -137,6 +140,43 @@ func init() {
 					}
 					obs["accepted"] = gen >= 1
 					obs["panic"] = r.Panic != ""
+				case "bearer_twice":
+					w.idp.mu.Lock()
+					token := w.idp.mintIDToken("alice", mut, alg)
+					w.idp.mu.Unlock()
+					r = w.do(vpReq{Target: "/private", Header: [][2]string{{"Authorization", "Bearer " + token}}})
+					obs["accepted"] = r.UpHits > 0
+					time.Sleep(5 * time.Second)
+					r2 := w.do(vpReq{Target: "/private", Header: [][2]string{{"Authorization", "Bearer " + token}}})
+					obs["acceptedAfterExpiry"] = r2.UpHits > 0
+					obs["panic"] = r.Panic != "" || r2.Panic != ""
+					r = nil
+				case "validate_twice":
+					// the session's ID token expires in a few seconds; the provider refuses refreshes, so a stale session is re-validated
+					setBad("code")
+					if _, err := w.login(jar, "alice", ""); err != nil {
+						env.emit(vpOut{ID: c.ID, Err: "login: " + err.Error()})
+						continue
+					}
+					w.idp.mu.Lock()
+					w.idp.mutateClaims = nil
+					saveMode := w.idp.refreshMode
+					w.idp.refreshMode = "fail"
+					w.idp.mu.Unlock()
+					if err := w.ageSession(jar, 2*time.Hour, vpReq{}); err != nil {
+						env.emit(vpOut{ID: c.ID, Err: "age: " + err.Error()})
+						continue
+					}
+					r = w.get(jar, "/private")
+					obs["accepted"] = r.UpHits > 0
+					time.Sleep(5 * time.Second)
+					r2 := w.get(jar, "/private")
+					obs["acceptedAfterExpiry"] = r2.UpHits > 0
+					obs["panic"] = r.Panic != "" || r2.Panic != ""
+					w.idp.mu.Lock()
+					w.idp.refreshMode = saveMode
+					w.idp.mu.Unlock()
+					r = nil
 				case "bearer":
 					w.idp.mu.Lock()
 					token := w.idp.mintIDToken("alice", mut, alg)
